@@ -32,6 +32,8 @@ type Spec struct {
 	// standard library (what itch.io serves) instead of wharf's own stored zip;
 	// its readers return their last bytes together with io.EOF.
 	Deflate bool `json:"deflate,omitempty"`
+	// SigFile: heal against the signature read back from a signature stream instead of the computed one
+	SigFile bool `json:"sig_file,omitempty"`
 }
 
 // writeDeflateZip writes tree tr (already on disk below dir) as a standard zip.
@@ -151,11 +153,11 @@ func check(s Spec) h.Result {
 	if err := s.Tree.Write(ref); err != nil {
 		return h.Result{Skip: "cannot write tree"}
 	}
-	c, hs, err := h.Sign(ref)
+	si, err := h.SignatureOf(ref, s.SigFile)
 	if err != nil {
 		return h.Failf("signing failed: %v", err)
 	}
-	si := &pwr.SignatureInfo{Container: c, Hashes: hs}
+	c := si.Container
 	zp := filepath.Join(d, "build.zip")
 	if s.Deflate {
 		if err := writeDeflateZip(zp, ref, s.Tree); err != nil {
@@ -177,6 +179,9 @@ func check(s Spec) h.Result {
 	}
 	cl := h.DmgClasses(s.Tree, s.Damages)
 	cl = append(cl, fmt.Sprintf("gomaxprocs:%d", s.Procs))
+	if s.SigFile {
+		cl = append(cl, "signature:read-back-from-a-stream")
+	}
 	if s.Deflate {
 		cl = append(cl, "archive:deflate-zip")
 	} else {
@@ -298,6 +303,7 @@ var prop = h.Prop[Spec]{
 		}
 		s.Reps = 2
 		s.Deflate = rapid.IntRange(0, 2).Draw(t, "deflate-archive") == 0
+		s.SigFile = rapid.IntRange(0, 3).Draw(t, "signature-from-stream") == 0
 		return s
 	},
 	Check: check,
